@@ -10,7 +10,7 @@
     so a semantic change of a translated Go function breaks the lemma of that function (or of a
     caller) on that run, for ALL inputs, independently of what the sampled correspondence run
     happens to hit. Nothing admitted; no axioms in the integer/bit/byte groups (can, descriptor,
-    wire, netlink, scan, dbcid, dbcvalidate, lookup, lintnames); the floating-point groups (physical, apidecide) are on Flocq and depend
+    wire, netlink, scan, dbcid, dbcvalidate, lookup, lintnames, frametext); the floating-point groups (physical, apidecide) are on Flocq and depend
     on the standard-library axioms its lemmas use, and on nothing else (checked by
     checks/translate_tie.py against vlib.AXIOM_WHITELIST).
 
@@ -1396,4 +1396,122 @@ Lemma T_IsCamelCase_eq ud uu s : bytes_len s < 2 ^ 63 ->
 Proof.
   intros H. unfold Translated.IsCamelCase, Dbc.Lint.is_camel_case, Dbc.Lint.utf8_runes, go_range_string. cbv zeta.
   apply camel_loop_eq; [lia | exact H].
+Qed.
+
+(* @group frametext *)
+(** /repo/frame.go Frame.String / Frame.UnmarshalString and /repo/frame_json.go Frame.JSON against the
+    hand models Can/FrameString.v ([to_string], [unmarshal_string]) and Can/FrameJSON.v ([to_json]).
+    The translated functions return [option]: [None] = a run-time panic (slice bounds / index out of
+    range), which the hand models write [S_panic] / [Panic].  Library readings: Translate/GoSemText.v. *)
+From CanVerif Require Import Base.Dec Base.Hex Can.Frame Can.FrameString Can.FrameJSON Translate.GoSemText.
+
+Definition ft_of (f : Frame.frame) : Translated.Frame :=
+  {| Translated.Frame_ID := Frame.f_id f; Translated.Frame_Length := Frame.f_len f;
+     Translated.Frame_Data := Frame.f_data f; Translated.Frame_IsRemote := Frame.f_remote f;
+     Translated.Frame_IsExtended := Frame.f_ext f |}.
+
+(** hand-model results in the translator's vocabulary *)
+Definition ft_sres (r : sres) : option go_string :=
+  match r with S_ok s => Some s | S_panic => None end.
+Definition ft_ures (r : outcome * Frame.frame) : option (Translated.Frame * err) :=
+  match r with
+  | (Ok, f) => Some (ft_of f, err_nil)
+  | (Error, f) => Some (ft_of f, err_nonnil)
+  | (Panic, _) => None
+  end.
+
+Lemma ft_slice_ok d n : go_slice_ok 0 n 8 = true -> slice_to d n = Some (bytes_slice d 0 n).
+Proof.
+  unfold go_slice_ok, slice_to, bytes_slice. change (0 <=? 0) with true. cbn [andb]. intros ->.
+  change (Z.to_nat 0) with 0%nat. rewrite Nat.sub_0_r. reflexivity.
+Qed.
+Lemma ft_slice_bad d n : go_slice_ok 0 n 8 = false -> slice_to d n = None.
+Proof. unfold go_slice_ok, slice_to. change (0 <=? 0) with true. cbn [andb]. now intros ->. Qed.
+
+(** side condition of the reading of strings.ToUpper (GoSemText.v): its argument in Frame.String is ASCII *)
+Lemma hex_encode_ascii bs : Forall (in_u 8) bs -> Forall (fun c => 0 <= c < 128) (hex_encode bs).
+Proof.
+  unfold hex_encode, in_u. induction 1 as [| v t Hv _ IH]; cbn [flat_map app]; [constructor |].
+  assert (0 <= v / 16 < 16) by (split; [apply Z.div_pos | apply Z.div_lt_upper_bound]; lia).
+  assert (0 <= v mod 16 < 16) by (apply Z.mod_pos_bound; lia).
+  constructor; [| constructor; [| exact IH]]; unfold hexdig_lower;
+    match goal with |- context [?a <? 10] => destruct (a <? 10) end; lia.
+Qed.
+
+Ltac ft_proj := cbn [Translated.Frame_ID Translated.Frame_Length Translated.Frame_Data
+                     Translated.Frame_IsRemote Translated.Frame_IsExtended].
+
+Lemma T_Frame_String_eq f : in_u 32 (f_id f) -> in_u 8 (f_len f) ->
+  Translated.Frame_String (ft_of f) = ft_sres (to_string f).
+Proof.
+  intros Hid Hlen. unfold Translated.Frame_String, to_string, ft_of. ft_proj. unwrap.
+  unfold go_string_cat, go_fmt_hex_upper, go_strconv_Itoa, go_strings_ToUpper, go_hex_EncodeToString, ch_hash, ch_R.
+  change (Z.to_nat 8) with 8%nat. change (Z.to_nat 3) with 3%nat.
+  destruct (go_slice_ok 0 (f_len f) 8) eqn:G; [rewrite (ft_slice_ok _ _ G) | rewrite (ft_slice_bad _ _ G)];
+    destruct (f_ext f), (f_remote f), (f_len f =? 0); cbn [andb negb ft_sres]; rewrite <- ?app_assoc; reflexivity.
+Qed.
+
+Lemma T_Frame_JSON_eq f : in_u 32 (f_id f) -> in_u 8 (f_len f) ->
+  Translated.Frame_JSON (ft_of f) = ft_sres (to_json f).
+Proof.
+  intros Hid Hlen. unfold Translated.Frame_JSON, to_json, ft_of. ft_proj. unwrap.
+  unfold go_string_cat, go_strconv_Itoa, go_hex_EncodeToString,
+    lit_open_id, lit_ext_rem_len, lit_rem_len, lit_close, lit_ext_close, lit_data_open, lit_quote, lit_quote_close.
+  destruct (go_slice_ok 0 (f_len f) 8) eqn:G; [rewrite (ft_slice_ok _ _ G) | rewrite (ft_slice_bad _ _ G)];
+    destruct (f_ext f), (f_remote f), (f_len f =? 0); cbn [andb negb ft_sres]; rewrite <- ?app_assoc; reflexivity.
+Qed.
+
+Lemma ft_split_eq s c : go_strings_Split1 s c = split c s.
+Proof. induction s as [| x r IH]; cbn; [reflexivity |]. rewrite IH. reflexivity. Qed.
+
+Lemma ft_copy_data src :
+  bytes_copy_at (data_zero 8) 0 8 src = copy_data zero_data src.
+Proof.
+  destruct src as [| a0 [| a1 [| a2 [| a3 [| a4 [| a5 [| a6 [| a7 [| a8 r]]]]]]]]]; reflexivity.
+Qed.
+
+Lemma ft_len_nonneg (l : list Z) : 0 <= Z.of_nat (length l).
+Proof. lia. Qed.
+
+Lemma T_Frame_UnmarshalString_eq s dst :
+  Translated.Frame_UnmarshalString (ft_of dst) s = ft_ures (unmarshal_string s dst).
+Proof.
+  unfold Translated.Frame_UnmarshalString, unmarshal_string.
+  rewrite ft_split_eq. change 35 with ch_hash.
+  generalize (split ch_hash s) as parts. intros parts.
+  unfold list_len, go_string, go_bytes. destruct (Z.of_nat (length parts) =? 2) eqn:E2; cbn [negb]; [| reflexivity].
+  apply Z.eqb_eq in E2.
+  destruct parts as [| p0 [| p1 [| p2 r]]]; try (cbn [length] in E2; lia).
+  change (Z.of_nat (length [p0; p1])) with 2.
+  change (go_index_ok 0 2) with true. change (go_index_ok 1 2) with true. cbn [andb negb].
+  change (go_strlist_get [p0; p1] 0) with p0. change (go_strlist_get [p0; p1] 1) with p1.
+  cbn [nth_error]. unfold bytes_len, zlen.
+  destruct (negb (Z.of_nat (length p0) =? 3) && negb (Z.of_nat (length p0) =? 8)); [reflexivity |].
+  unfold go_strconv_ParseUint. destruct (parse_uint p0 16 32) as [id | |]; cbn [negb err_nil err_nonnil]; try reflexivity.
+  destruct p1 as [| c0 p1]; [reflexivity |].
+  replace (Z.of_nat (length (c0 :: p1)) =? 0) with false by (symmetry; apply Z.eqb_neq; cbn [length]; lia).
+  replace (go_index_ok 0 (Z.of_nat (length (c0 :: p1)))) with true
+    by (symmetry; unfold go_index_ok; apply andb_true_iff; split; [reflexivity | apply Z.ltb_lt; cbn [length]; lia]).
+  cbn [negb nth_error]. change (bytes_get (c0 :: p1) 0) with c0. change 82 with ch_R.
+  destruct (c0 =? ch_R).
+  - destruct (2 <? Z.of_nat (length (c0 :: p1))); [reflexivity |].
+    destruct (Z.of_nat (length (c0 :: p1)) =? 2) eqn:L2; [| reflexivity].
+    apply Z.eqb_eq in L2. destruct p1 as [| c1 [| c2 r]]; try (cbn [length] in L2; lia).
+    change (go_slice_ok 1 2 (Z.of_nat (length [c0; c1]))) with true. cbn [negb].
+    change (bytes_slice [c0; c1] 1 2) with [c1]. change (str_slice [c0; c1] 1 2) with (Some [c1]).
+    unfold go_strconv_Atoi. destruct (atoi [c1]); reflexivity.
+  - rewrite Z.rem_mod_nonneg by (try apply ft_len_nonneg; lia).
+    destruct (16 <? Z.of_nat (length (c0 :: p1))) eqn:L16; [reflexivity |]. cbn [orb].
+    destruct (negb (Z.of_nat (length (c0 :: p1)) mod 2 =? 0)); [reflexivity |].
+    apply Z.ltb_ge in L16.
+    unfold go_hex_DecodeString. destruct (hex_decode (c0 :: p1)) as [dec |]; cbn [negb err_nil err_nonnil]; [| reflexivity].
+    assert (Hq : wrap_u 8 (go_div_s 64 (Z.of_nat (length (c0 :: p1))) 2) = (Z.of_nat (length (c0 :: p1)) / 2) mod 256).
+    { unfold go_div_s. rewrite Z.quot_div_nonneg by lia.
+      assert (0 <= Z.of_nat (length (c0 :: p1)) / 2 <= 8) by (split; [apply Z.div_pos; lia | apply Z.div_le_upper_bound; lia]).
+      unfold wrap_s, wrap_u. rewrite (Z.mod_small _ (2 ^ 64)) by lia.
+      replace (Z.of_nat (length (c0 :: p1)) / 2 <? 2 ^ (64 - 1)) with true by (symmetry; apply Z.ltb_lt; lia).
+      reflexivity. }
+    ft_proj. cbn [Translated.set_Frame_Data Translated.set_Frame_Length Translated.set_Frame_ID Translated.set_Frame_IsExtended ft_ures].
+    unfold Translated.set_Frame_Length, Translated.set_Frame_ID, Translated.set_Frame_IsExtended, Translated.set_Frame_Data. ft_proj.
+    rewrite Hq, ft_copy_data. reflexivity.
 Qed.
